@@ -195,18 +195,25 @@ def _analyse_function(mod, ci, fd):
             p = par.get(n)
             rule, ok, why = _classify_dict_use(n, p, par)
             sites.append(Site(rule, where, ok, ast.unparse(n)[:60] + "  in  " + (ast.unparse(p)[:70] if p is not None else ""), why))
-        # ---- loops over dict views / generic iteration in utilities are for-each-insert or ordered
+        # ---- loops over dict views: order matters only for dicts that were filled in set order
         if isinstance(n, ast.For):
             it = n.iter
             if isinstance(it, ast.Call) and isinstance(it.func, ast.Attribute) and it.func.attr in ("items", "values", "keys"):
-                keys = set()
-                if isinstance(n.target, ast.Tuple):
-                    keys = {e.id for e in n.target.elts[:1] if isinstance(e, ast.Name)}
-                elif isinstance(n.target, ast.Name):
-                    keys = {n.target.id}
-                ok = _for_each_insert(n, keys)
-                sites.append(Site("O2-dict-view-loop", where, ok, ast.unparse(it), "for-each-insert: result[key] = f(key, value) only"
-                                  if ok else "a loop over a dict view whose body is order sensitive"))
+                src = it.func.value
+                params = {a.arg for a in fn.args.args + fn.args.kwonlyargs}
+                unknown = isinstance(src, ast.Name) and src.id in params      # provenance unknown (utilities)
+                if is_tainted_dict(src) or unknown:
+                    keys = set()
+                    if isinstance(n.target, ast.Tuple):
+                        keys = {e.id for e in n.target.elts[:1] if isinstance(e, ast.Name)}
+                    elif isinstance(n.target, ast.Name):
+                        keys = {n.target.id}
+                    ok = _for_each_insert(n, keys)
+                    sites.append(Site("O2-dict-view-loop", where, ok, ast.unparse(it), "for-each-insert: result[key] = f(key, value) only"
+                                      if ok else "a loop over a possibly set-ordered dict whose body is order sensitive"))
+                else:
+                    sites.append(Site("O2-insertion-ordered-dict-loop", where, True, ast.unparse(it),
+                                      "the dict is filled in program order (CPython dicts are insertion ordered), not from a set"))
         # ---- O5 Point coordinates
         if ci is not None and ci.name == "Point" and isinstance(n, ast.Attribute) and n.attr == "_coordinates" \
                 and isinstance(n.ctx, ast.Load):
@@ -216,7 +223,7 @@ def _analyse_function(mod, ci, fd):
                 ok, why = True, "lookup"
             elif isinstance(p, ast.Compare):
                 ok, why = True, "dict equality is order independent"
-            elif isinstance(p, ast.Attribute) and p.attr == "items":
+            elif isinstance(p, ast.Attribute) and p.attr in ("items", "keys", "values"):
                 gp = par.get(par.get(p))
                 if isinstance(gp, ast.Call) and isinstance(gp.func, ast.Name) and gp.func.id == "sorted":
                     ok, why = True, "sorted(items): canonical"
@@ -239,10 +246,12 @@ def _classify_set_use(n, p, par, fn):
         return "O1-set-len", True, "cardinality"
     if isinstance(p, ast.Compare) and any(isinstance(o, (ast.In, ast.NotIn)) for o in p.ops) and n in p.comparators:
         return "O1-set-membership", True, "membership"
-    if isinstance(p, ast.Attribute) and p.attr in ("union",) and p.value is n:
-        return "O1-set-union", True, "union"
-    if isinstance(p, ast.Call) and isinstance(p.func, ast.Attribute) and p.func.attr == "union":
-        return "O1-set-union", True, "union argument"
+    if isinstance(p, ast.Attribute) and p.attr in ("union", "update", "add", "issubset", "issuperset", "isdisjoint", "copy") and p.value is n:
+        return "O1-set-union", True, f"order-independent set operation .{p.attr}"
+    if isinstance(p, ast.Call) and isinstance(p.func, ast.Attribute) and p.func.attr in ("union", "update", "issubset", "issuperset", "isdisjoint"):
+        return "O1-set-union", True, f"argument of .{p.func.attr}"
+    if isinstance(p, ast.AugAssign) and isinstance(p.op, ast.BitOr):
+        return "O1-set-union", True, "set |= set"
     if isinstance(p, ast.GeneratorExp) and p.elt is n:
         gp = par.get(p)
         if isinstance(gp, ast.Starred):
@@ -274,6 +283,16 @@ def _classify_set_use(n, p, par, fn):
     if isinstance(p, ast.Starred):
         return "O1-set-starred", False, "a set spread into positional arguments in iteration order"
     if isinstance(p, ast.comprehension) and p.iter is n:
+        comp = par.get(p)
+        if isinstance(comp, ast.DictComp) and isinstance(p.target, ast.Name) and isinstance(comp.key, ast.Name) \
+                and comp.key.id == p.target.id and len(comp.generators) == 1:
+            return "O1-set-for-each-insert", True, "{k: f(k) for k in S}: keyed by the element, order independent"
+        if isinstance(comp, ast.SetComp):
+            return "O1-set-for-each-insert", True, "a set built from a set"
+        consumer = par.get(comp)
+        if isinstance(comp, (ast.GeneratorExp, ast.ListComp)) and isinstance(consumer, ast.Call) and isinstance(consumer.func, ast.Name) \
+                and consumer.func.id in ("any", "all", "sorted", "set", "frozenset", "min", "max", "len"):
+            return "O1-set-order-free-reduction", True, f"consumed by {consumer.func.id}(): order independent"
         return "O1-set-comprehension", False, "a comprehension over a set yields its iteration order"
     if isinstance(p, ast.Attribute):
         return "O1-set-method", p.attr in ("union", "issubset", "issuperset", "isdisjoint", "copy"), f"method .{p.attr}"
@@ -300,6 +319,21 @@ def _classify_dict_use(n, p, par):
         if p.attr == "get":
             return "O2-dict-lookup", True, "lookup by key"
         if p.attr in ("items", "values", "keys"):
+            call = par.get(p)
+            user = par.get(call)
+            if isinstance(user, ast.For) and user.iter is call:
+                keys = set()
+                if isinstance(user.target, ast.Tuple):
+                    keys = {e.id for e in user.target.elts[:1] if isinstance(e, ast.Name)}
+                elif isinstance(user.target, ast.Name):
+                    keys = {user.target.id}
+                if p.attr != "values" and _for_each_insert(user, keys):
+                    return "O2-dict-for-each-insert", True, "for k, v in d.items(): result[k] = f(k, v)"
+            if isinstance(user, ast.comprehension) and isinstance(par.get(user), ast.DictComp):
+                comp = par.get(user)
+                tk = user.target.elts[0] if isinstance(user.target, ast.Tuple) else user.target
+                if isinstance(tk, ast.Name) and isinstance(comp.key, ast.Name) and comp.key.id == tk.id and p.attr != "values":
+                    return "O2-dict-for-each-insert", True, "{k: f(k, v) for k, v in d.items()}"
             return "O2-dict-view", False, "iteration order of a dict filled from a set"
         return "O2-dict-method", False, f"method .{p.attr}"
     if isinstance(p, ast.Subscript) and p.value is n:
